@@ -2,7 +2,6 @@
  * every function body under contract comes from lowered.h (extracted from the repository on each run). */
 #include <stdint.h>
 #include <stddef.h>
-struct kbq;
 static void mon_load(void* addr, uint64_t v, int o);
 static void mon_cas(void* addr, uint64_t e, uint64_t d, _Bool ok, int o);
 static void mon_store(void* addr, uint64_t v, int o);
@@ -14,7 +13,7 @@ int xv_threw; uint64_t xv_clock, xv_rmw_old; _Bool xv_cas_ok;
 #define XV_EXC_std__invalid_argument 1
 #define XV_EXC_std__bad_alloc 2
 
-/* ---- shapes ---- */
+/* ---- shapes: k in 1..KMAX, segments in 1..SMAX; one cbmc run covers every (k, S) of the box by dispatching on the two inputs ---- */
 #ifndef KMAX
 #define KMAX 3
 #endif
@@ -25,7 +24,7 @@ int xv_threw; uint64_t xv_clock, xv_rmw_old; _Bool xv_cas_ok;
 
 /* ---- types ---- */
 typedef uint64_t marked_idx;       /* struct marked_idx { uint64_t _val; } : its one word */
-typedef uint64_t marked_value;     /* marked_ptr<T,16>: contract of unit mp - 48 pointer bits, 16 mark bits on top, mark trimmed */
+typedef uint64_t marked_value;     /* marked_ptr<T,16>: contract of unit mp - 48 pointer bits, 16 mark bits on top, mark trimmed to 16 bits */
 typedef uintptr_t value_type, raw_value_type;
 #define PTR_BITS 48
 #define PTR_MASK ((((uint64_t)1) << PTR_BITS) - 1)
@@ -36,6 +35,7 @@ struct entry { marked_value value; };
 struct kbq { uint64_t _queue_size; size_t _k; marked_idx _head; marked_idx _tail; struct entry _queue[NMAX]; };
 #define bits XV_BITS
 #define val_mask XV_VAL_MASK
+#define TAG_MASK (~(uint64_t)0 >> XV_BITS)
 
 /* ---- utils::random(): an arbitrary value on every call ---- */
 static uint64_t xv_random(void) { return nondet_u64(); }
@@ -47,50 +47,362 @@ static void TR_release(value_type v) { g_released++; }
 #define TR_store(target, raw) do { (target) = (raw); g_stored++; } while (0)
 static void TR_delete_value(raw_value_type raw) { if (raw != 0) { if (raw == g_track) g_deleted_tracked++; else g_deleted_other++; } }
 
+/* ---- constructor pieces ---- */
+#define ALLOC_MAX (((uint64_t)1) << 59)      /* operator new[] of more than 2^63 bytes fails */
+uint64_t g_alloc_n; unsigned g_allocs, g_queue_inits;
+static uint64_t xv_new_entries(uint64_t n) { if (n > ALLOC_MAX) { xv_threw = XV_EXC_std__bad_alloc; return 0; } g_alloc_n = n; g_allocs++; return 1; }
+#define XV_NEW_ENTRIES(self, n) xv_new_entries(n)
+#define XV_INIT__queue_size(self, v) ((self)->_queue_size = (v))
+#define XV_INIT__k(self, v) ((self)->_k = (v))
+#define XV_INIT__head(self, v) ((self)->_head = XV_MI_DEFAULT)      /* marked_idx() = default; uint64_t _val = <XV_MI_DEFAULT, read from the header> */
+#define XV_INIT__tail(self, v) ((self)->_tail = XV_MI_DEFAULT)
+#define XV_INIT__queue(self, v) do { if (v) g_queue_inits++; } while (0)
+
 /* ---- do_pop is instantiated with the two lambdas of try_pop ---- */
 static _Bool kbq_pop_success(value_type* result_p, marked_value* v_p);
 static _Bool kbq_pop_empty(void);
 #define XV_SUCCESSFUNC(v) kbq_pop_success(result_p, &(v))
 #define XV_EMPTYFUNC() kbq_pop_empty()
 
+/* ---- callees of try_push / do_pop: the real text (default), the SEQ contract stub (XV_STUB == 1: implements kbq.find_index.result /
+ * kbq.segment_empty.spec, which the find_index_* and segment_empty runs prove for the real text), or an INT recording stub returning an
+ * arbitrary answer (XV_STUB == 2).  committed and queue_full stay real in SEQ runs. ---- */
+struct kbq;
+#if XV_STUB == 1
+static _Bool st_find_index_E(struct kbq* self, uint64_t start, uint64_t* idx_p, marked_value* old_p);
+static _Bool st_find_index_N(struct kbq* self, uint64_t start, uint64_t* idx_p, marked_value* old_p);
+static _Bool st_segment_empty(struct kbq* self, uint64_t h);
+#define CALL_find_index_E st_find_index_E
+#define CALL_find_index_N st_find_index_N
+#define CALL_segment_empty st_segment_empty
+#define CALL_queue_full kbq_queue_full
+#define CALL_committed kbq_committed
+#elif XV_STUB == 2
+static _Bool rec_find_index(struct kbq* self, uint64_t start, uint64_t* idx_p, marked_value* old_p);
+static _Bool rec_queue_full(struct kbq* self, uint64_t h, uint64_t t);
+static _Bool rec_segment_empty(struct kbq* self, uint64_t h);
+static _Bool rec_committed(struct kbq* self, uint64_t t, uint64_t v, uint64_t idx);
+#define CALL_find_index_E rec_find_index
+#define CALL_find_index_N rec_find_index
+#define CALL_queue_full rec_queue_full
+#define CALL_segment_empty rec_segment_empty
+#define CALL_committed rec_committed
+#else
+#define CALL_find_index_E kbq_find_index_E
+#define CALL_find_index_N kbq_find_index_N
+#define CALL_queue_full kbq_queue_full
+#define CALL_segment_empty kbq_segment_empty
+#define CALL_committed kbq_committed
+#endif
+
 /* ---- monitors ---- */
 struct kbq* mon_q;
-unsigned mon_nprobe; uint64_t mon_probe[KMAX > 16 ? KMAX : 16];
+#define NPROBE 16
+unsigned mon_nprobe; uint64_t mon_probe[NPROBE];
 _Bool mon_adv_ok = 1, mon_plain_store;
+/* slot CAS log (last), head/tail access log */
+unsigned mon_slot_cas_ok_n, mon_slot_cas_n; uint64_t mon_slot_cas_idx, mon_slot_cas_e, mon_slot_cas_d, mon_slot_cas_clock; int mon_slot_cas_order; _Bool mon_slot_cas_ok;
+uint64_t mon_tail_first, mon_tail_last, mon_tail_last_clock, mon_head_first, mon_head_last, mon_head_last_clock; unsigned mon_tail_loads, mon_head_loads;
+unsigned mon_tail_cas_n, mon_head_cas_n; uint64_t mon_tail_cas_e, mon_tail_cas_d, mon_tail_cas_clock, mon_head_cas_e, mon_head_cas_d; _Bool mon_head_cas_ok;
 static uint64_t MI_get(marked_idx), MI_mark(marked_idx); static marked_idx MI_make(uint64_t, uint64_t);
+static void env_own_cas(void* addr, uint64_t e, uint64_t d, _Bool ok);
+static long slot_of(void* addr) {
+  if (!__CPROVER_same_object(addr, mon_q)) return -1;
+  size_t off = __CPROVER_POINTER_OFFSET(addr);
+  if (off < offsetof(struct kbq, _queue)) return -1;
+  return (long)((off - offsetof(struct kbq, _queue)) / sizeof(struct entry));
+}
 static void mon_load(void* addr, uint64_t v, int o) {
-  if ((char*)addr >= (char*)&mon_q->_queue[0] && (char*)addr < (char*)&mon_q->_queue[NMAX]) {
-    uint64_t s = (uint64_t)((struct entry*)addr - &mon_q->_queue[0]);
-    if (mon_nprobe < sizeof mon_probe / sizeof mon_probe[0]) mon_probe[mon_nprobe] = s;
-    mon_nprobe++;
-  }
+  long s = slot_of(addr);
+  if (s >= 0) { if (mon_nprobe < NPROBE) mon_probe[mon_nprobe] = (uint64_t)s; mon_nprobe++; }
+  if (addr == (void*)&mon_q->_tail) { if (!mon_tail_loads) mon_tail_first = v; mon_tail_last = v; mon_tail_last_clock = xv_clock; mon_tail_loads++; }
+  if (addr == (void*)&mon_q->_head) { if (!mon_head_loads) mon_head_first = v; mon_head_last = v; mon_head_last_clock = xv_clock; mon_head_loads++; }
 }
 static void mon_store(void* addr, uint64_t v, int o) { mon_plain_store = 1; }
-static void mon_cas(void* addr, uint64_t e, uint64_t d, _Bool ok, int o);
 
 #include "lowered.h"
 
-/* head/tail change only by CAS from the value read, to (index+k mod size, tag+1) or - head only - to (index, tag+1) */
+/* kbq.advance.by_k: head/tail change only by CAS, to (index+k mod size, tag+1) or - head only, in committed - to (index, tag+1) */
 static void mon_cas(void* addr, uint64_t e, uint64_t d, _Bool ok, int o) {
+  long s = slot_of(addr);
+  if (s >= 0) { mon_slot_cas_n++; if (ok) mon_slot_cas_ok_n++; mon_slot_cas_idx = (uint64_t)s; mon_slot_cas_e = e; mon_slot_cas_d = d; mon_slot_cas_ok = ok; mon_slot_cas_order = o; mon_slot_cas_clock = xv_clock; }
   if (addr == (void*)&mon_q->_head || addr == (void*)&mon_q->_tail) {
     uint64_t adv = MI_get(e) + mon_q->_k; if (adv >= mon_q->_queue_size) adv -= mon_q->_queue_size;
     _Bool moved = MI_get(d) == adv, bumped = MI_get(d) == MI_get(e) && addr == (void*)&mon_q->_head;
-    if (!((moved || bumped) && MI_mark(d) == ((MI_mark(e) + 1) & (~(uint64_t)0 >> bits)))) mon_adv_ok = 0;
+    if (!((moved || bumped) && MI_mark(d) == ((MI_mark(e) + 1) & TAG_MASK))) mon_adv_ok = 0;
+    if (addr == (void*)&mon_q->_tail) { mon_tail_cas_n++; mon_tail_cas_e = e; mon_tail_cas_d = d; mon_tail_cas_clock = xv_clock; }
+    else { mon_head_cas_n++; mon_head_cas_e = e; mon_head_cas_d = d; mon_head_cas_ok = ok; }
   }
+#ifdef XV_INT
+  env_own_cas(addr, e, d, ok);
+#endif
+}
+static void mon_reset(struct kbq* q) {
+  mon_q = q; mon_nprobe = 0; mon_adv_ok = 1; mon_plain_store = 0; mon_slot_cas_ok_n = 0; mon_slot_cas_n = 0; mon_tail_loads = 0; mon_head_loads = 0;
+  mon_tail_cas_n = 0; mon_head_cas_n = 0; g_released = 0; g_stored = 0; g_deleted_tracked = 0; g_deleted_other = 0; xv_threw = 0; xv_clock = 0;
 }
 
 /* =====================================================================================================
- * pure obligations
+ * pure obligations: index word, valid-region predicates
  * ===================================================================================================== */
-uint64_t in_v, in_m, in_size;
-/* every index the queue can hold is < _queue_size; the constructor decides which sizes exist (see h_ctor). */
-void h_idx_roundtrip(void) {
-  in_v = nondet_u64(); in_m = nondet_u64(); in_size = nondet_u64();
-  XV_ASSUME(in_size <= XV_CTOR_MAX_SIZE && in_v < in_size);
-  marked_idx w = MI_make(in_v, in_m);
-  XV_OBL("kbq.idx.roundtrip", MI_get(w) == in_v);
-  XV_OBL("kbq.idx.roundtrip", MI_mark(w) == (in_m & (~(uint64_t)0 >> bits)));
-  XV_OBL("kbq.idx.roundtrip", (MI_make(in_v, in_m) == MI_make(in_v, in_m + 1)) == 0);
-  if (in_v > 65536) XV_CANARY("idx.large");
-  if (in_m >> 60) XV_CANARY("idx.mark_trimmed");
+uint64_t in_v, in_m, in_k, in_s, in_to, in_t, in_h;
+
+/* kbq.idx.roundtrip + kbq.ctor.*: run the real constructor on every (k >= 1, num_segments >= 1); if it accepts (no exception, allocation
+ * possible), every index v < _queue_size - that is every value the operations can store in _head/_tail - must survive marked_idx. */
+void h_ctor(void) {
+  struct kbq q; mon_reset(&q); g_allocs = 0; g_queue_inits = 0; g_alloc_n = nondet_u64();
+  q._queue_size = nondet_u64(); q._k = nondet_size(); q._head = nondet_u64(); q._tail = nondet_u64();
+  in_k = nondet_u64(); in_s = nondet_u64(); in_v = nondet_u64(); in_m = nondet_u64();
+  XV_ASSUME(in_k >= 1 && in_s >= 1);
+  kbq_ctor(&q, in_k, in_s);
+  if (xv_threw) { XV_CANARY("ctor.rejected"); return; }
+  XV_OBL("kbq.ctor.size", q._queue_size >= 1 && q._queue_size / in_k == in_s);              /* == k*num_segments without wrap-around */
+  XV_OBL("kbq.ctor.state", q._k == in_k && q._head == 0 && q._tail == 0 && g_allocs == 1 && g_queue_inits == 1 && g_alloc_n == q._queue_size);
+  if (in_v < q._queue_size) {
+    marked_idx w = MI_make(in_v, in_m);
+    XV_OBL("kbq.idx.roundtrip", MI_get(w) == in_v);
+    XV_OBL("kbq.idx.roundtrip", MI_mark(w) == (in_m & TAG_MASK));
+    XV_OBL("kbq.idx.roundtrip", MI_make(in_v, in_m) != MI_make(in_v, in_m + 1));
+    if (in_v >= 65536) XV_CANARY("ctor.large_index");
+    XV_CANARY("ctor.accepted");
+  }
+  if (in_k == 1 && in_s == 1) XV_CANARY("ctor.one_by_one");
 }
+
+/* circular position of x when walking forward from h on the ring of all 64-bit values (for indices below any queue size the
+ * circular order of three points is the same on the ring of that size) */
+static uint64_t ring_dist(uint64_t from, uint64_t x) { return x - from; }
+void h_in_valid(void) {
+  in_to = nondet_u64(); in_t = nondet_u64(); in_h = nondet_u64();
+  _Bool r = kbq_in_valid_region((struct kbq*)0, in_to, in_t, in_h);
+  _Bool spec = ring_dist(in_h, in_to) >= 1 && ring_dist(in_h, in_to) <= ring_dist(in_h, in_t);       /* to in (h, t] */
+  XV_OBL("kbq.in_valid.spec", r == spec);
+  if (r && in_t < in_h) XV_CANARY("in_valid.wrap_true");
+  if (!r && in_t < in_h) XV_CANARY("in_valid.wrap_false");
+  if (r && in_t >= in_h) XV_CANARY("in_valid.nowrap_true");
+}
+void h_not_in_valid(void) {
+  in_to = nondet_u64(); in_t = nondet_u64(); in_h = nondet_u64();
+  _Bool r = kbq_not_in_valid_region((struct kbq*)0, in_to, in_t, in_h);
+  _Bool spec = !(ring_dist(in_h, in_to) <= ring_dist(in_h, in_t));                                    /* to not in [h, t] */
+  XV_OBL("kbq.not_in_valid.spec", r == spec);
+  if (spec && in_t < in_h) XV_CANARY("not_in_valid.wrap_outside");
+  if (!spec && in_t < in_h) XV_CANARY("not_in_valid.wrap_inside");
+  if (spec && in_t >= in_h) XV_CANARY("not_in_valid.nowrap_outside");
+}
+
+/* =====================================================================================================
+ * shape dispatch + representation invariant of quiescent states
+ * ===================================================================================================== */
+#ifndef KLO
+#define KLO 1
+#endif
+#ifndef SMASK
+#define SMASK (~0u)
+#endif
+#define FOR_SHAPES(call) do { in_k = nondet_u64(); in_s = nondet_u64(); \
+  for (unsigned k_ = KLO; k_ <= KMAX; k_++) for (unsigned S_ = 1; S_ <= SMAX; S_++) if (((SMASK >> S_) & 1) && in_k == k_ && in_s == S_) { call; } } while (0)
+
+uint64_t g_age[NMAX], g_next_age;
+static void havoc_shape(struct kbq* q, uint64_t k, uint64_t S) {
+  q->_k = k; q->_queue_size = k * S;
+  uint64_t hs = nondet_u64(), ts = nondet_u64(); XV_ASSUME(hs < S && ts < S);
+  uint64_t htag = nondet_u64(), ttag = nondet_u64(); XV_ASSUME(htag <= TAG_MASK && ttag <= TAG_MASK);
+  q->_head = (hs * k) | (htag << XV_BITS); q->_tail = (ts * k) | (ttag << XV_BITS);
+  for (unsigned i = 0; i < NMAX; i++) { q->_queue[i].value = nondet_u64(); g_age[i] = nondet_u64(); }
+  g_next_age = nondet_u64();
+}
+/* segment number of a head/tail position; S if the position is not a segment boundary inside the array */
+static uint64_t seg_of_pos(uint64_t pos, uint64_t k, uint64_t S) { for (uint64_t s = 0; s < S; s++) if (pos == s * k) return s; return S; }
+/* walking distance on the ring of n positions */
+static uint64_t ring_off(uint64_t from, uint64_t x, uint64_t n) { return x >= from ? x - from : x + n - from; }
+/* quiescent representation invariant:  head, tail on segment boundaries; with d = segments from head to tail: slots of segments beyond d are empty,
+ * segments strictly between head and tail are full; ages (ghost insertion order) are distinct and increase from segment to segment */
+static _Bool inv(struct kbq* q, uint64_t k, uint64_t S) {
+  uint64_t size = k * S, hs = seg_of_pos(q->_head & XV_VAL_MASK, k, S), ts = seg_of_pos(q->_tail & XV_VAL_MASK, k, S);
+  if (!(q->_k == k && q->_queue_size == size && hs < S && ts < S)) return 0;
+  uint64_t d = ring_off(hs, ts, S);
+  for (unsigned i = 0; i < NMAX; i++) if (i < size) {
+    uint64_t j = ring_off(hs, i / k, S); _Bool nn = MV_get(q->_queue[i].value) != 0;
+    if (j > d && nn) return 0;
+    if (j > 0 && j < d && !nn) return 0;
+    if (nn && !(g_age[i] < g_next_age)) return 0;
+    for (unsigned i2 = 0; i2 < NMAX; i2++) if (i2 < size && i2 != i && nn && MV_get(q->_queue[i2].value) != 0) {
+      if (g_age[i] == g_age[i2]) return 0;
+      if (j < ring_off(hs, i2 / k, S) && !(g_age[i] < g_age[i2])) return 0;
+    }
+  }
+  return 1;
+}
+static unsigned count(struct kbq* q, uint64_t size) { unsigned n = 0; for (unsigned i = 0; i < NMAX; i++) if (i < size && MV_get(q->_queue[i].value) != 0) n++; return n; }
+
+/* =====================================================================================================
+ * find_index: covers the segment, finds a matching slot iff there is one
+ * ===================================================================================================== */
+uint64_t in_start;
+static void find_index_case(uint64_t k, uint64_t S, _Bool empty) {
+  struct kbq q; havoc_shape(&q, k, S); mon_reset(&q);
+  uint64_t size = k * S; in_start = nondet_u64(); XV_ASSUME(in_start < size);
+  uint64_t idx = nondet_u64(), idx0 = idx; marked_value old = nondet_u64();
+  _Bool r = empty ? kbq_find_index_E(&q, in_start, &idx, &old) : kbq_find_index_N(&q, in_start, &idx, &old);
+  unsigned n = mon_nprobe;
+  /* the probes: pairwise distinct, all inside [start, start+k) mod size */
+  unsigned a = nondet_uint(), b = nondet_uint();
+  XV_OBL("kbq.find_index.covers", n >= 1 && n <= k);
+  if (a < n) XV_OBL("kbq.find_index.covers", mon_probe[a] < size && ring_off(in_start, mon_probe[a], size) < k);
+  if (a < b && b < n) XV_OBL("kbq.find_index.covers", mon_probe[a] != mon_probe[b]);
+  if (!r) XV_OBL("kbq.find_index.covers", n == k);
+  /* result */
+  if (r) {
+    XV_OBL("kbq.find_index.result", idx < size && ring_off(in_start, idx, size) < k && old == q._queue[idx].value && (MV_get(old) == 0) == empty);
+    XV_CANARY("find_index.found");
+    if (n == k && k > 1) XV_CANARY("find_index.found_last");
+  } else {
+    uint64_t j = nondet_u64(); XV_ASSUME(j < k);
+    uint64_t sl = in_start + j; if (sl >= size) sl -= size;
+    XV_OBL("kbq.find_index.result", idx == idx0 && (MV_get(q._queue[sl].value) == 0) != empty);
+    XV_CANARY("find_index.none");
+  }
+}
+void h_find_index_E(void) { FOR_SHAPES(find_index_case(k_, S_, 1)); }
+void h_find_index_N(void) { FOR_SHAPES(find_index_case(k_, S_, 0)); }
+
+
+/* kbq.segment_empty.spec: true iff every slot of the head segment is empty (no interference) */
+static void segment_empty_case(uint64_t k, uint64_t S) {
+  struct kbq q; havoc_shape(&q, k, S); mon_reset(&q);
+  uint64_t size = k * S, hs = nondet_u64(), tag = nondet_u64(); XV_ASSUME(hs < S && tag <= TAG_MASK);
+  marked_idx h = (hs * k) | (tag << XV_BITS);
+  _Bool r = kbq_segment_empty(&q, h);
+  _Bool all_empty = 1;
+  for (unsigned j = 0; j < KMAX; j++) if (j < k && MV_get(q._queue[hs * k + j].value) != 0) all_empty = 0;
+  XV_OBL("kbq.segment_empty.spec", r == all_empty && mon_slot_cas_n == 0);
+  if (r) XV_CANARY("segment_empty.true"); else XV_CANARY("segment_empty.false");
+}
+void h_segment_empty(void) { FOR_SHAPES(segment_empty_case(k_, S_)); }
+
+#if XV_STUB == 1
+/* SEQ contract stubs (start is a segment boundary at every call site of try_push / do_pop) */
+static _Bool st_find_index(struct kbq* self, uint64_t start, uint64_t* idx_p, marked_value* old_p, _Bool empty) {
+  uint64_t k = self->_k, size = self->_queue_size;
+  XV_OBL("kbq.find_index.result", start < size);                      /* requires */
+  _Bool r = nondet_bool();
+  if (r) {
+    uint64_t i = nondet_u64(); XV_ASSUME(i < size && i < NMAX && ring_off(start, i, size) < k && (MV_get(self->_queue[i].value) == 0) == empty);
+    *idx_p = i; *old_p = self->_queue[i].value;
+  } else {
+    for (unsigned j = 0; j < KMAX; j++) if (j < k) { uint64_t sl = start + j; if (sl >= size) sl -= size; XV_ASSUME((MV_get(self->_queue[sl].value) == 0) != empty); }
+    *old_p = nondet_u64();
+  }
+  return r;
+}
+static _Bool st_find_index_E(struct kbq* self, uint64_t start, uint64_t* idx_p, marked_value* old_p) { return st_find_index(self, start, idx_p, old_p, 1); }
+static _Bool st_find_index_N(struct kbq* self, uint64_t start, uint64_t* idx_p, marked_value* old_p) { return st_find_index(self, start, idx_p, old_p, 0); }
+static _Bool st_segment_empty(struct kbq* self, uint64_t h) {
+  uint64_t k = self->_k, size = self->_queue_size, start = MI_get(h); _Bool all_empty = 1;
+  XV_OBL("kbq.segment_empty.spec", start < size);
+  for (unsigned j = 0; j < KMAX; j++) if (j < k) { uint64_t sl = start + j; if (sl >= size) sl -= size; if (MV_get(self->_queue[sl].value) != 0) all_empty = 0; }
+  return all_empty;
+}
+#endif
+
+/* =====================================================================================================
+ * SEQ refinement: one operation from ANY quiescent state satisfying inv (all callees are the real text)
+ * ===================================================================================================== */
+uint64_t in_value;
+static void snapshot(struct kbq* q, struct kbq* o) { *o = *q; }
+static void push_case(uint64_t k, uint64_t S) {
+  struct kbq q, o; havoc_shape(&q, k, S); mon_reset(&q); XV_ASSUME(inv(&q, k, S));
+  uint64_t size = k * S; unsigned n = count(&q, size);
+  in_value = nondet_u64(); XV_ASSUME(in_value != 0 && in_value <= PTR_MASK);
+  snapshot(&q, &o);
+  _Bool r = kbq_try_push(&q, in_value);
+  XV_OBL("kbq.push.reject", !xv_threw);
+  unsigned changed = 0, c = 0;
+  for (unsigned i = 0; i < NMAX; i++) if (i < size && q._queue[i].value != o._queue[i].value) { changed++; c = i; }
+  if (!r) {
+    /* rejects only if at least (S-1)*k+1 values are stored (so never on an empty queue); nothing changes, the value stays with the caller */
+    XV_OBL("kbq.push.reject", n >= (S - 1) * k + 1);
+    XV_OBL("kbq.push.reject", changed == 0 && q._head == o._head && q._tail == o._tail && g_released == 0);
+    XV_CANARY("push.rejected");
+  } else {
+    XV_OBL("kbq.push.stores", changed == 1 && MV_get(o._queue[c].value) == 0 && q._queue[c].value == MV_make(in_value, MV_mark(o._queue[c].value) + 1));
+    XV_OBL("kbq.push.stores", g_released == 1);
+    /* the new item sits in the (new) tail segment and is the youngest */
+    uint64_t ts = seg_of_pos(q._tail & XV_VAL_MASK, k, S);
+    XV_OBL("kbq.push.stores", ts < S && c / k == ts);
+    g_age[c] = g_next_age; g_next_age++;
+    XV_OBL("kbq.inv.preserved", inv(&q, k, S));
+    if (q._tail != o._tail) XV_CANARY("push.advanced_tail");
+    if (q._head != o._head && MI_get(q._head) != MI_get(o._head)) XV_CANARY("push.advanced_head");
+    if (q._head != o._head && MI_get(q._head) == MI_get(o._head)) XV_CANARY("push.bumped_head");
+    if (n == 0) XV_CANARY("push.on_empty");
+  }
+  XV_OBL("kbq.advance.by_k", mon_adv_ok && !mon_plain_store);
+  XV_OBL("kbq.inv.preserved", q._k == k && q._queue_size == size);
+}
+void h_push(void) { FOR_SHAPES(push_case(k_, S_)); }
+
+void h_push_null(void) {
+  struct kbq q, o; in_k = nondet_u64(); in_s = nondet_u64(); XV_ASSUME(in_k >= 1 && in_k <= KMAX && in_s >= 1 && in_s <= SMAX);
+  havoc_shape(&q, in_k, in_s); mon_reset(&q); snapshot(&q, &o);
+  _Bool r = kbq_try_push(&q, 0);
+  XV_OBL("kbq.push.reject", xv_threw == XV_EXC_std__invalid_argument && g_released == 0 && mon_slot_cas_n == 0 && mon_head_cas_n == 0 && mon_tail_cas_n == 0);
+  XV_CANARY("push.null");
+}
+
+value_type in_res0;
+static void pop_case(uint64_t k, uint64_t S) {
+  struct kbq q, o; havoc_shape(&q, k, S); mon_reset(&q); XV_ASSUME(inv(&q, k, S));
+  uint64_t size = k * S; unsigned n = count(&q, size);
+  in_res0 = nondet_uptr(); value_type res = in_res0;
+  snapshot(&q, &o);
+  _Bool r = kbq_do_pop(&q, &res);
+  unsigned changed = 0, c = 0;
+  for (unsigned i = 0; i < NMAX; i++) if (i < size && q._queue[i].value != o._queue[i].value) { changed++; c = i; }
+  XV_OBL("kbq.pop.empty", r == (n != 0));
+  if (!r) {
+    XV_OBL("kbq.pop.empty", changed == 0 && res == in_res0 && g_stored == 0);
+    XV_CANARY("pop.empty");
+    if (q._head != o._head) XV_CANARY("pop.empty_after_advancing");
+  } else {
+    XV_OBL("kbq.pop.oldest_segment", changed == 1 && MV_get(o._queue[c].value) != 0 && q._queue[c].value == MV_make(0, MV_mark(o._queue[c].value) + 1));
+    XV_OBL("kbq.pop.oldest_segment", res == MV_get(o._queue[c].value) && g_stored == 1);
+    /* c lies in the oldest non-empty segment: every segment before it (walking from the old head) was empty */
+    uint64_t hs = seg_of_pos(o._head & XV_VAL_MASK, k, S), jc = ring_off(hs, c / k, S); unsigned older = 0;
+    for (unsigned i = 0; i < NMAX; i++) if (i < size && MV_get(o._queue[i].value) != 0) {
+      XV_OBL("kbq.pop.oldest_segment", ring_off(hs, i / k, S) >= jc);
+      if (g_age[i] < g_age[c]) older++;
+    }
+    XV_OBL("kbq.pop.k_oldest", older < k);
+    if (older > 0) XV_CANARY("pop.not_the_oldest");
+    if (q._tail != o._tail) XV_CANARY("pop.advanced_tail");
+    if (q._head != o._head) XV_CANARY("pop.advanced_head");
+  }
+  XV_OBL("kbq.inv.preserved", inv(&q, k, S));
+  XV_OBL("kbq.advance.by_k", mon_adv_ok && !mon_plain_store);
+}
+void h_pop(void) { FOR_SHAPES(pop_case(k_, S_)); }
+
+/* the freshly constructed queue satisfies inv (all slots value-initialised: null) */
+static void init_case(uint64_t k, uint64_t S) {
+  struct kbq q; havoc_shape(&q, k, S); q._head = XV_MI_DEFAULT; q._tail = XV_MI_DEFAULT;
+  for (unsigned i = 0; i < NMAX; i++) q._queue[i].value = 0;
+  XV_OBL("kbq.inv.preserved", inv(&q, k, S));
+  XV_CANARY("init.reached");
+}
+void h_init(void) { FOR_SHAPES(init_case(k_, S_)); }
+
+/* C07: the destructor destroys every value still inside exactly once (values are distinct objects; any slot contents, inv not needed) */
+static void dtor_case(uint64_t k, uint64_t S) {
+  struct kbq q; havoc_shape(&q, k, S); mon_reset(&q);
+  uint64_t size = k * S; unsigned n = count(&q, size); g_track = nondet_uptr(); XV_ASSUME(g_track != 0);
+  unsigned tracked = 0;
+  for (unsigned i = 0; i < NMAX; i++) if (i < size && MV_get(q._queue[i].value) == g_track) tracked++;
+  XV_ASSUME(tracked <= 1);
+  kbq_dtor(&q);
+  XV_OBL("kbq.dtor.each_once", g_deleted_tracked == tracked && g_deleted_tracked + g_deleted_other == n);
+  if (tracked && n > 1) XV_CANARY("dtor.tracked");
+  if (n == 0) XV_CANARY("dtor.empty");
+}
+void h_dtor(void) { FOR_SHAPES(dtor_case(k_, S_)); }
